@@ -124,9 +124,10 @@ CLAIMED = {
             'two-factor bootstrap; on every outcome each stored evaluation is proved (z3, all real data/model values) equal to the mean '
             'cosine similarity between the prediction restricted to the drawn conditions (with multiplicity, copy pairs missing) and the '
             'resampled data RDMs, NaN exactly for <3 distinct conditions, the stored noise ceilings equal the reference leave-one-group-out '
-            'bounds of the SAME resample, dof = resampled groups - 1, covariance = sample covariance across evaluable resamples. crossval: '
+            'bounds of the SAME resample, dof = resampled groups - 1, covariance = sample covariance across evaluable resamples; the same obligations for bootstrap_crossval with k_pattern=k_rdm=1 '
+            '(train = test = the resample; first resample and its fold shuffles exhaustive, every draw accounted for). crossval: '
             'probe fitter sees the training fold only, score = oracle on theta and the test fold, folds with <=2 conditions are NaN.',
-            'N<=3, <=3 RDMs x 3|4 conditions, cosine only, fixed models in the bootstrap routines; bootstrap_crossval and the dual '
+            'N<=3, <=3 RDMs x 3|4 conditions, cosine only, fixed models in the bootstrap routines; bootstrap_crossval only with k=1, n_cv=1, no correction; k>1 and the dual '
             'bootstrap are not covered (outcome space too large); seed-reproducibility of NumPy\'s generator is outside (draws are stubbed)'),
     'C06': ('DESIGN.md 4/C06',
             'Real extract_variances (scalar, vector, matrix, 3-stack, with/without ceiling rows, all n_rdm/n_pattern combinations) proved '
